@@ -287,6 +287,34 @@ def cases18(ck, rnd, loop):
             _sync(node[0].cemi_handler.send_telegram(Telegram(GroupAddress(ga), payload=pl)), loop)
             raw = node[1][-1].to_knx()
             out.append(({"p": "C18", "kind": "out", "keyed": keyed, "onwire_secure": 1 if (raw[9] & 0x03) == 0x03 and raw[10] == 0xF1 else 0}, raw.hex()))
+    # the keyring is loaded again while the system clock is wrong (before 2018: no valid initial sequence number can be derived): the
+    # re-initialisation fails, the application handles the error - the addresses stay secured with what was loaded before
+    def failed_reinit(node, senders):
+        with patch("time.time", return_value=1514900000.0):
+            try:
+                node[0].cemi_handler.data_secure_init(keyring_for(key, tuple(senders)))
+            except Exception:  # noqa: BLE001 - DataSecureError: handled by the application
+                pass
+
+    for pl in (apci.GroupValueWrite(DPTBinary(1)), apci.GroupValueRead(), apci.GroupValueWrite(DPTArray((1, 2, 3)))):
+        receiver = make_node(key, ["1.1.7"], loop)
+        failed_reinit(receiver, ["1.1.7"])
+        raw = CEMIFrame(code=CEMIMessageCode.L_DATA_IND, data=CEMILData.init_from_telegram(Telegram(GroupAddress(GA), payload=pl), src_addr=IndividualAddress("1.1.7"))).to_knx()
+        r = receive(loop, receiver, raw)
+        out.append(({"p": "C18", "kind": "plain_in", "keyed": 1, "out": r["out"], "keyissue": receiver[2]["keyissue"], "device": receiver[2]["device"],
+                     "cb": receiver[2]["cb"], "secure": 1 if r["tg"] is not None and r["tg"].data_secure else 0}, raw.hex() + " (after a failed re-initialisation)"))
+        node = make_node(key, [], loop)
+        failed_reinit(node, [])
+        before = len(node[1])
+        try:
+            _sync(node[0].cemi_handler.send_telegram(Telegram(GroupAddress(GA), payload=pl)), loop)
+        except Exception:  # noqa: BLE001 - any refusal at the call
+            pass
+        if len(node[1]) > before:
+            raw = node[1][-1].to_knx()
+            out.append(({"p": "C18", "kind": "out", "keyed": 1, "onwire_secure": 1 if (raw[9] & 0x03) == 0x03 and raw[10] == 0xF1 else 0}, raw.hex() + " (after a failed re-initialisation)"))
+        else:
+            out.append(({"p": "C18", "kind": "out", "keyed": 1, "onwire_secure": -1}, "nothing sent (after a failed re-initialisation)"))
     # the sending sequence number runs out: telegrams to a secured address are refused, never sent plain
     from xknx.exceptions import DataSecureError
 
